@@ -60,7 +60,14 @@ func readFaultEnum(e *env) error {
 		if len(data) > 160 {
 			step = 3
 		}
+		if len(data) > 3000 {
+			// a file with a line beyond bufio's buffer: offsets around the buffer boundaries and a sparse sweep
+			step = 1 + len(data)/150
+		}
 		for k := 0; k <= len(data); k += step {
+			if len(data) > 3000 && k > 4200 && k%4096 > 8 && k%4096 < 4088 && (k/step)%3 != 0 {
+				continue
+			}
 			if k < len(data) {
 				e.sum.Nontrivial++
 			}
